@@ -843,12 +843,24 @@ package libinjection
 //@   ensures  [C01 C12 C06] @stats old(s.statsCommentDDX) <= s.statsCommentDDX && s.statsCommentDDX <= old(s.statsCommentDDX) + 1
 //@   cost     <= (result - old(s.pos)) + 12
 
+//@ spec ccEndAt(s *sqliState, k int) bool = k + 1 < s.length && s.input[k] == '*' && s.input[k+1] == '/'
+//@ spec ccOpenAt(s *sqliState, k int) bool = s.input[k] == '/' && s.input[k+1] == '*'
 //@ func parseSlash
 //@   rel on
 //@   requires wfS(s) && s.pos < s.length
 //@   modifies s.current.category, s.current.pos, s.current.len, s.current.val
 //@   ensures  [C01 C16 C06] @lex lexOK(s, result)
 //@   cost     <= 3 * (result - old(s.pos)) + 24
+//@   ensures  [C06 C16] @cstyle let p = old(s.pos) in (p + 1 < s.length && s.input[p+1] == '*') ==>
+//@                 s.current.pos == p && s.current.len == min(result - p, 31) && (s.current.category == sqliTokenTypeEvil || s.current.category == sqliTokenTypeComment)
+//@   ensures  [C06 C16] @cstyle-closed let p = old(s.pos) in (p + 1 < s.length && s.input[p+1] == '*' && p + 2 <= result - 2 && ccEndAt(s, result - 2)) ==>
+//@                 (forall k in [p + 2, result - 2): !(k + 1 < s.length && s.input[k] == '*' && s.input[k+1] == '/')) &&
+//@                 (s.current.category == sqliTokenTypeEvil ==> ((exists j in [p + 2, result - 2): s.input[j] == '/' && s.input[j+1] == '*') || s.input[p+2] == '!')) &&
+//@                 (forall j in [p + 2, result - 2): (s.input[j] == '/' && s.input[j+1] == '*') ==> s.current.category == sqliTokenTypeEvil) && (s.input[p+2] == '!' ==> s.current.category == sqliTokenTypeEvil)
+//@   ensures  [C06 C16] @cstyle-open let p = old(s.pos) in (p + 1 < s.length && s.input[p+1] == '*' && !(p + 2 <= result - 2 && ccEndAt(s, result - 2))) ==>
+//@                 result == s.length && (forall k in [p + 2, s.length): !(k + 1 < s.length && s.input[k] == '*' && s.input[k+1] == '/')) &&
+//@                 (s.current.category == sqliTokenTypeEvil <==> (p + 2 < s.length && s.input[p+2] == '!'))
+//@   ensures  [C06 C16] @notcomment let p = old(s.pos) in !(p + 1 < s.length && s.input[p+1] == '*') ==> s.current.category == sqliTokenTypeOperator && result == p + 1
 
 //@ func parseBackSlash
 //@   rel on
